@@ -180,6 +180,35 @@ fn conv_proto_to_raw(src: &mut Src) -> Result<(String, usize), String> {
     // the importer keeps a name -> cell map
     Ok((t, n))
 }
+/// raw -> protobuf of a library of 64-100 cells of very different sizes (nothing about a conversion may
+/// depend on how large the library is: worker pools, batching and the like included)
+fn conv_raw_to_proto_large(src: &mut Src) -> Result<(String, usize), String> {
+    let mut m = rawlib::gen_rawlib(src, &RawGenOpts { abstracts: false, pico: false, annotations: false, nets_need_label_purpose: false, nonrect_nets: false, max_cells: 2, closed_polygons: false, abs_only_cells: false, shared_purpose_numbers: false, contact_near_bend: false, instances_of_abstracts: false });
+    let base = m.cells.len();
+    let template: Option<rawlib::RShape> = m.cells.iter().flat_map(|c| c.shapes.iter()).next().cloned();
+    let n = src.usize_in(62, 100);
+    for k in 0..n {
+        let copies = match src.weighted(&[4, 3, 1]) {
+            0 => 0,
+            1 => src.usize_in(1, 4),
+            _ => 400,
+        };
+        let shapes = template.iter().flat_map(|t| std::iter::repeat(t.clone()).take(copies)).collect();
+        let ni = if base + k > 0 { src.weighted(&[2, 2, 1]) } else { 0 };
+        let insts = (0..ni).map(|j| rawlib::RInst { name: format!("i{}", j), target: src.index(base + k), loc: (src.signed(500), src.signed(500)), o: crate::refmodel::geom::Orient::from_index(src.index(8)), none_angle: src.bool() }).filter(|i| m.cells[i.target].has_layout).collect();
+        m.cells.push(rawlib::RCell { name: format!("big{}", k), has_layout: true, shapes, insts, annotations: vec![], abs: None });
+    }
+    let mut extra: Vec<usize> = (base..base + n).collect();
+    src.shuffle(&mut extra);
+    m.listing.extend(extra);
+    let b = rawlib::build(&m);
+    let t = match b.lib.to_proto() {
+        // the order of the cells, and what each holds
+        Ok(p) => p.cells.iter().map(|c| format!("{} {}\n", c.name, c.layout.as_ref().map(|l| l.shapes.iter().map(|s| s.rectangles.len() + s.polygons.len() + s.paths.len()).sum::<usize>() * 1000 + l.instances.len()).unwrap_or(0))).collect::<String>(),
+        Err(_) => "ERR export".to_string(),
+    };
+    Ok((t, n))
+}
 fn conv_gds_to_raw(src: &mut Src) -> Result<(String, usize), String> {
     let mut m = crate::props::c06::gen_lib(src);
     crate::props::c06::add_conflicting_labels(src, &mut m);
@@ -310,7 +339,7 @@ thread_local! {
     static FORCE_NAMELESS: std::cell::Cell<bool> = const { std::cell::Cell::new(false) };
 }
 type Conv = fn(&mut Src) -> Result<(String, usize), String>;
-const CONVS: &[(&str, Conv)] = &[("raw-to-gds", conv_raw_to_gds), ("raw-to-proto", conv_raw_to_proto), ("gds-to-raw", conv_gds_to_raw), ("proto-to-raw", conv_proto_to_raw), ("lef-raw-lef", conv_lef_raw_lef), ("tetris-to-raw-gds-proto", conv_tetris)];
+const CONVS: &[(&str, Conv)] = &[("raw-to-gds", conv_raw_to_gds), ("raw-to-proto", conv_raw_to_proto), ("gds-to-raw", conv_gds_to_raw), ("proto-to-raw", conv_proto_to_raw), ("raw-to-proto-large", conv_raw_to_proto_large), ("lef-raw-lef", conv_lef_raw_lef), ("tetris-to-raw-gds-proto", conv_tetris)];
 
 fn repeat_case(name: &'static str, f: Conv) -> impl Fn(&mut Src, &mut Ctx) -> Result<(), String> {
     move |src, ctx| {
@@ -432,17 +461,17 @@ fn cross_process(run: &mut Run, name: &'static str, f: Conv, n: usize, words: us
     run.push(SubResult { name: format!("{}-cross-process", name), kind: "child processes", exhaustive: false, stats, failure, wall_s: t0.elapsed().as_secs_f64() });
 }
 fn run(run: &mut Run) {
-    run.rule("Inputs of C06, C07, C08, C14, C16 (GDSII hierarchies, raw libraries with multi-layer abstract ports and blockages, LEF libraries with several layers per pin, gridded cells with abstract views) as input descriptions; each description is materialised 6 times in this process (fresh hash maps each time) and in 3 separate child processes, converted (GDSII->raw, raw->GDSII, raw->protobuf, protobuf->raw->protobuf incl. messages defining a cell name twice, LEF->raw->LEF, gridded->raw->GDSII/protobuf) and rendered to a transcript that keeps every sequence order (GDSII timestamps masked; only the result type's own unordered maps are sorted). All transcripts of one description must be identical. Non-trivial = >= 2 keys in an unordered map on the conversion path; distinct by hash of (conversion, description).");
+    run.rule("Inputs of C06, C07, C08, C14, C16 (GDSII hierarchies, raw libraries with multi-layer abstract ports and blockages, LEF libraries with several layers per pin, gridded cells with abstract views) as input descriptions; each description is materialised 6 times in this process (fresh hash maps each time) and in 3 separate child processes, converted (GDSII->raw, raw->GDSII, raw->protobuf (also libraries of 64-100 cells of very different sizes), protobuf->raw->protobuf incl. messages defining a cell name twice, LEF->raw->LEF, gridded->raw->GDSII/protobuf) and rendered to a transcript that keeps every sequence order (GDSII timestamps masked; only the result type's own unordered maps are sorted). All transcripts of one description must be identical. Non-trivial = >= 2 keys in an unordered map on the conversion path; distinct by hash of (conversion, description).");
     run.assume("hash seeds cannot be chosen: detection is probabilistic per input (>= 1 - 2^-5 for a two-key map within one process), the verdict over hundreds of inputs effectively deterministic; on a deterministic tree the check cannot fire");
     run.min_nontrivial = 100;
     for (name, f) in CONVS {
-        let n = run.tier.pick(8_000, 100_000);
+        let n = if name.ends_with("-large") { run.tier.pick(250, 3_000) } else { run.tier.pick(8_000, 100_000) };
         let c = repeat_case(name, *f);
         run.explore(name, n, 900, &c);
     }
     run.enumerate("across-a-second", run.tier.pick(1, 4), &across_a_second_case);
     for (name, f) in CONVS {
-        let n = run.tier.pick(300, 2_000) as usize;
+        let n = if name.ends_with("-large") { run.tier.pick(30, 200) } else { run.tier.pick(300, 2_000) } as usize;
         cross_process(run, name, *f, n, 900);
     }
 }
